@@ -1,12 +1,22 @@
 /-
-  Line-protocol handlers for C01.  `handle` receives the tokens after the property id.
+  Line-protocol handlers for C01 (well-typed programs): creation under the four tree deciders.
 -/
 import GEVerif.Model.Sexp
+import GEVerif.Model.Synth
+import GEVerif.Drive.Val
 
 namespace GEVerif.Drive.C01
-open GEVerif Sexp
+open GEVerif Sexp GEVerif.Drive
 
 def handle : List Sexp → Option Sexp
+  | [atom "create", spec, dec, draws] => do
+      let g := analyse (← parseSpec spec)
+      let dec ← parseDecider dec
+      if !deciderValid g dec then pure (list [atom "err", atom "library"]) else
+      pure (resSx valSx (randomTree g dec bigFuel (mkSt (← draws.asNats?))))
+  | [atom "prop_wt", spec, v] => do
+      let g := analyse (← parseSpec spec)
+      pure (ofBool (wt g [] (.cls g.spec.start) (← parseVal v)))
   | _ => none
 
 end GEVerif.Drive.C01
